@@ -104,13 +104,14 @@ struct Monitor
     RefDecoder ref;
     std::vector<Bytes> fed;
     std::string lastOp;
+    size_t hookEvery = 1;  // mass histories (tens of thousands of open endpoints): walk the pending list every n-th frame only
 
-    void feed(const Bytes& f, const std::string& op)
+    void feed(const Bytes& f, const std::string& op, bool forceWalk = false)
     {
         fed.push_back(f);
         lastOp = op;
         c.note("history=" + describeFrames(fed, fed.size() - 1));
-        if (fed.size() % 17 == 16)
+        if (fed.size() % (hookEvery > 1 ? 19997 : 17) == 16)
         {
             ASAM::CMP::Decoder copy(dec);
             ASAM::CMP::Decoder other;
@@ -125,6 +126,8 @@ struct Monitor
         auto input = [&]() { return "history=" + describeFrames(fed, fed.size() - 1, 300); };
         if (!tecmp && got.size() != exp.size() && c.prop == "C05")
             c.violation("C05:delivery-count-differs-from-model", "frame " + std::to_string(fed.size() - 1), input());
+        if (hookEvery > 1 && fed.size() % hookEvery != 0 && !forceWalk)
+            return;
         auto pend = dec.verifPendingReassemblies();
         std::set<std::pair<uint16_t, uint8_t>> seen;
         char buf[256];
@@ -304,43 +307,48 @@ inline void manyOpen(Ctx& c, long j)
 {
     Rng r = c.fixedRng(j, 33);
     Monitor m{c};
-    const size_t n = j == 0 ? 300 : 1500;
+    // j == 2: 70 000 endpoints (more than a 16-bit count of table entries; all 256 streams of 274 devices spread over the id
+    // space); the pending list is walked every 4999th frame and at the turning points
+    const size_t n = j == 0 ? 300 : (j == 1 ? 1500 : 70000);
+    if (j == 2)
+        m.hookEvery = 4999;
     std::vector<Ep> eps;
     for (size_t i = 0; i < n; ++i)
-        eps.push_back(Ep{static_cast<uint16_t>(j == 0 ? i : i * 41), static_cast<uint8_t>(i % 251), static_cast<uint16_t>(r.next())});
-    for (auto& e : eps)
-        m.feed(letterFrame(L_F, e, r), "F");
+        eps.push_back(j == 2 ? Ep{static_cast<uint16_t>((i / 256) * 239 + 5), static_cast<uint8_t>(i % 256), static_cast<uint16_t>(r.next())}
+                             : Ep{static_cast<uint16_t>(j == 0 ? i : i * 41), static_cast<uint8_t>(i % 251), static_cast<uint16_t>(r.next())});
+    for (size_t i = 0; i < n; ++i)
+        m.feed(letterFrame(L_F, eps[i], r), "F", i + 1 == n);
     // a middle segment for every third, then finish all in a stride order
     for (size_t i = 0; i < n; i += 3)
-        m.feed(letterFrame(L_M, eps[i], r), "M");
+        m.feed(letterFrame(L_M, eps[i], r), "M", i + 3 >= n);
     for (size_t k = 0; k < n; ++k)
     {
         size_t i = (k * 7919) % n;
         int letter = (k % 5 == 0) ? L_U : ((k % 7 == 0) ? L_X : L_L);
-        m.feed(letterFrame(letter, eps[i], r), letterName(letter));
+        m.feed(letterFrame(letter, eps[i], r), letterName(letter), k + 1 == n);
     }
-    c.count("histories_with_hundreds_of_open_endpoints");
+    c.count(j == 2 ? "histories_with_70000_open_endpoints" : "histories_with_hundreds_of_open_endpoints");
 }
 
 inline long count(Ctx& c)
 {
-    return kSeq5 + 2 + (c.thorough() ? kSeq4x2 + 2000000 : 40000);
+    return kSeq5 + 3 + (c.thorough() ? kSeq4x2 + 2000000 : 40000);
 }
 inline void run(Ctx& c, long idx)
 {
     if (idx < kSeq5)
         return exhaustiveOne(c, idx);
     idx -= kSeq5;
-    if (idx < 2)
+    if (idx < 3)
         return manyOpen(c, idx);
-    idx -= 2;
+    idx -= 3;
     if (c.thorough())
     {
         if (idx < kSeq4x2)
             return exhaustiveTwo(c, idx);
         idx -= kSeq4x2;
     }
-    randomHistory(c, idx + kSeq5 + kSeq4x2 + 2);
+    randomHistory(c, idx + kSeq5 + kSeq4x2 + 3);
 }
 
 }  // namespace c17
@@ -585,9 +593,36 @@ inline void longGapCase(Ctx& c, long j)
     c.count("histories_with_a_gap_of_more_than_65536_foreign_frames");
 }
 
+// deterministic: thousands / tens of thousands of endpoints with a reassembly open at the same moment; every endpoint then gets
+// its remaining segments (some an aborting frame instead), in another order. A table that is cleared, capped or evicts entries
+// when it grows makes an endpoint's outcome depend on how many OTHER endpoints are in flight.
+inline void massOpenCase(Ctx& c, long j)
+{
+    static const size_t ns[] = {1100, 4200, 70000};
+    const size_t n = ns[j % 3];
+    Rng r = c.fixedRng(j, 36);
+    std::vector<c17::Ep> eps;
+    for (size_t i = 0; i < n; ++i)
+        eps.push_back(c17::Ep{static_cast<uint16_t>((i / 256) * 239 + 5), static_cast<uint8_t>(i % 256), static_cast<uint16_t>(r.next())});
+    std::vector<Bytes> H;
+    H.reserve(3 * n);
+    for (auto& e : eps)
+        H.push_back(c17::letterFrame(c17::L_F, e, r));
+    for (size_t i = 0; i < n; i += 2)
+        H.push_back(c17::letterFrame(c17::L_M, eps[i], r));
+    for (size_t k = 0; k < n; ++k)
+    {
+        size_t i = (k * 7919) % n;
+        int letter = (k % 9 == 0) ? c17::L_U : ((k % 13 == 0) ? c17::L_X : c17::L_L);
+        H.push_back(c17::letterFrame(letter, eps[i], r));
+    }
+    checkHistory(c, H, mix64(0x3a55, static_cast<uint64_t>(j)));
+    c.count(n >= 65536 ? "histories_with_70000_endpoints_open_at_once" : "histories_with_thousands_of_endpoints_open_at_once");
+}
+
 inline long count(Ctx& c)
 {
-    return 400 + 6 + (c.thorough() ? 3000000 : 40000);
+    return 400 + 6 + 3 + (c.thorough() ? 3000000 : 40000);
 }
 inline void run(Ctx& c, long idx)
 {
@@ -595,6 +630,8 @@ inline void run(Ctx& c, long idx)
         return mergeCase(c, idx);
     if (idx < 406)
         return longGapCase(c, idx - 400);
+    if (idx < 409)
+        return massOpenCase(c, idx - 406);
     randomCase(c, idx);
 }
 
